@@ -206,6 +206,12 @@ EarlyRequeueInsert(i) ==
     /\ ret' = [ret EXCEPT ![i] = TRUE] /\ transit' = [transit EXCEPT ![i] = FALSE]
     /\ UNCHANGED <<now, st, origin, deliv, cons, norder, pend>>
 
+(* ... and that a message taken through the delayed category before its due time goes back there, not to where normal consumers see it *)
+EarlyReturn(c, i) ==
+    /\ Held(c, i) /\ origin[i] = "d" /\ ~DueOk(i)
+    /\ loc' = [loc EXCEPT ![i] = U("n")] /\ holder' = [holder EXCEPT ![i] = NoC] /\ ret' = [ret EXCEPT ![i] = TRUE]
+    /\ UNCHANGED <<now, st, meta, origin, deliv, cons, norder, transit, pend>>
+
 TMove ==
     /\ Is("move") /\ Step
     /\ LET i == Ev.i  new == Vec(Ev.v)  k == Ev.k  cl == Call(Ev.k) IN
@@ -220,7 +226,8 @@ TMove ==
           \/ /\ cl.op = "ack" /\ cl.i = i /\ ~cl.done /\ Ack(cl.c, i) /\ Done(k) /\ taint' = taint
           \/ /\ cl.op = "nack" /\ cl.i = i /\ ~cl.done /\ Nack(cl.c, i) /\ Done(k) /\ taint' = taint
           \/ /\ cl.op = "reject" /\ cl.i = i /\ ~cl.done
-             /\ \E pl \in Cats : Reject(cl.c, i, pl)
+             /\ \/ \E pl \in Cats : Reject(cl.c, i, pl)
+                \/ "early" \notin chk /\ EarlyReturn(cl.c, i)
              /\ Done(k) /\ taint' = taint
           \/ /\ cl.op = "requeue" /\ cl.i = i /\ ~cl.done
              /\ \/ /\ \E pl \in {"n", "d"} : Requeue(cl.c, i, cl.m, pl)
@@ -234,7 +241,8 @@ TMove ==
           \* queue_flush / queue_delete: messages of that queue (and only of that queue) vanish
           \/ /\ cl.op = "flush" /\ Drop(i, cl.m.q) /\ UNCHANGED <<calls, taint>>
           \/ /\ cl.op = "finish"
-             /\ \E pl \in Cats : ReturnHeld(cl.c, i, pl)
+             /\ \/ \E pl \in Cats : ReturnHeld(cl.c, i, pl)
+                \/ "early" \notin chk /\ EarlyReturn(cl.c, i)
              /\ UNCHANGED <<calls, taint>>
           \* a consumer gives back a message it had taken (prefetched) but not handed to its client
           \/ /\ Ev.c # 0 /\ holder[i] = Ev.c /\ ~deliv[i] /\ cl.op # "finish"
